@@ -89,6 +89,7 @@ func FuzzQueryBytes(f *testing.F) {
 		f.Add(s, false)
 	}
 	f.Fuzz(func(t *testing.T, data []byte, pop bool) {
+		pbt.FuzzIteration(data, pop)
 		gq := &gripql.GraphQuery{}
 		if err := proto.Unmarshal(data, gq); err != nil {
 			t.Skip()
@@ -107,13 +108,27 @@ func FuzzQueryBytes(f *testing.F) {
 		if err != nil {
 			return
 		}
-		ctx, cancel := context.WithTimeout(context.Background(), 3*time.Second)
+		// survival is the oracle; time is not (hangs are C07's). The engine kills a worker
+		// whose call takes 10 s, so the call itself never waits that long: 3 s of rows, then
+		// cancel, then at most 3 s more for the stream to close.
+		ctx, cancel := context.WithCancel(context.Background())
 		defer cancel()
+		ch := pipeline.Run(ctx, pipe, pbt.ScratchDir("c06fuzzwork-"))
+		soft, hard := time.After(3*time.Second), time.After(6*time.Second)
 		n := 0
-		for range pipeline.Run(ctx, pipe, pbt.ScratchDir("c06fuzzwork-")) {
-			n++
-			if n > 50000 {
+		for {
+			select {
+			case _, ok := <-ch:
+				if !ok {
+					return
+				}
+				if n++; n > 50000 {
+					cancel()
+				}
+			case <-soft:
 				cancel()
+			case <-hard:
+				return
 			}
 		}
 	})
